@@ -97,6 +97,7 @@ type world struct {
 	n, k     int
 	shareIdx int // share index (1-based) of the node under test
 	vals     []*valInfo
+	co       []*valInfo // the cluster validators again, all with a duty in one common slot / committee / subcommittee
 	outsider *valInfo // active on the beacon node, not part of the cluster lock
 	byIndex  map[eth2p0.ValidatorIndex]*valInfo
 	byCore   map[core.PubKey]*valInfo
@@ -324,6 +325,30 @@ func newWorld(t *testing.T, rng *rand.Rand) (*world, error) {
 		w.attByKey[attKey{v.Slot, v.Comm, uint64(v.Idx)}] = v
 	}
 	// the outsider has a duty in the (real) beacon chain but no DutyDB entries in this cluster.
+
+	// co-slot layout: every cluster validator additionally attests / aggregates / syncs in one
+	// common slot, in the same committee (distinct positions) and subcommittee.
+	var coSlot uint64
+	for {
+		ep := w.currentEpoch - 2 + uint64(rng.Intn(5))
+		coSlot = ep*w.spe + uint64(rng.Intn(int(w.spe)))
+		if !usedSlot[coSlot] {
+			usedSlot[coSlot] = true
+			break
+		}
+	}
+	coComm, coLen, coSub := uint64(rng.Intn(64)), uint64(len(w.vals)+2+rng.Intn(20)), uint64(rng.Intn(4))
+	posPerm := rng.Perm(int(coLen))
+	for i, v := range w.vals {
+		cv := *v
+		cv.Slot, cv.Comm, cv.CommLen, cv.Pos, cv.Subcomm = coSlot, coComm, coLen, uint64(posPerm[i]), coSub
+		w.co = append(w.co, &cv)
+		w.attDefs[coSlot] = append(w.attDefs[coSlot], core.AttesterDefinition{AttesterDuty: eth2v1.AttesterDuty{
+			PubKey: v.Eth2, Slot: eth2p0.Slot(coSlot), ValidatorIndex: v.Idx, CommitteeIndex: eth2p0.CommitteeIndex(coComm),
+			CommitteeLength: coLen, CommitteesAtSlot: 64, ValidatorCommitteeIndex: cv.Pos,
+		}})
+		w.attByKey[attKey{coSlot, coComm, uint64(v.Idx)}] = v
+	}
 
 	// validator API of node shareIdx
 	w.vapi, err = validatorapi.NewComponent(w.bmock, w.pubShare, w.shareIdx, func(core.PubKey) string { return "" }, rng.Intn(2) == 0, 30_000_000)
